@@ -115,6 +115,8 @@ class CallMixin:
         if isinstance(callee, ClassRef):
             return self.construct(callee.info, args, kwargs, node)
         if isinstance(callee, BoundMethod):
+            if getattr(callee, "via_table", False):
+                return self.call_via_table(callee, args, kwargs, node)  # dispatch.py, S3
             if callee.cls is None:
                 return self.value_method(callee.recv, callee.name, args, kwargs, node, env)
             return self.call_method(callee.recv, callee.name, args, kwargs, node)
@@ -484,7 +486,13 @@ class CallMixin:
                 for k, v in rk.items():
                     env.locals["exc_" + k] = v
                 for cl in c.on_raise.get(exc, []):
-                    self.ctx.assume(self.spec_bool(cl, env))
+                    try:
+                        t = self.spec_bool(cl, env)
+                    except Unsupported as u:
+                        if str(u).startswith("unbound name "):
+                            continue  # clause over a local of the callee / an exception attribute the contract does not export: not assumed (see ensures below)
+                        raise
+                    self.ctx.assume(t)
                 for cl in invs:
                     self.ctx.assume(self.spec_bool(cl, env))
                 raise PyRaise(exc, site=site, kwargs=rk)
@@ -503,7 +511,16 @@ class CallMixin:
                 self.ctx.assume(z3.Implies(z3.Not(sym.opt_is_none(res)), self.ref_wf_term(sym.opt_val(res).t)))
         env.result = res
         for cl in c.ensures:
-            self.ctx.assume(self.spec_bool(cl, env))
+            try:
+                t = self.spec_bool(cl, env)
+            except Unsupported as u:
+                # an ensures clause that names a LOCAL of the callee ("locals of the function are visible by name" holds only
+                # while the callee itself is verified) cannot be stated at a call site: it is not assumed there (assuming
+                # less is sound; the caller simply learns nothing from that clause)
+                if str(u).startswith("unbound name "):
+                    continue
+                raise
+            self.ctx.assume(t)
         for cl in invs:
             self.ctx.assume(self.spec_bool(cl, env))
         return res
@@ -511,6 +528,14 @@ class CallMixin:
     def raise_kwargs(self, c, exc, env):
         out = {}
         for attr, expr in c.raise_attrs.get(exc, {}).items():
+            if expr.startswith("fresh:"):
+                # "fresh:<type>": the attribute exists and is an ARBITRARY value of that type (nothing else is known)
+                ty = self.types.parse_str(expr[len("fresh:"):].strip(), env.module)
+                v = sym.fresh(ty, self.ctx.fresh_name("exc_" + attr))
+                for f in sym.wf(v):
+                    self.ctx.assume(f)
+                out[attr] = v
+                continue
             out[attr] = self.spec_val(expr, env.old)
         return out
 
@@ -526,6 +551,14 @@ class CallMixin:
                         raise Unsupported("call with opaque effects inside a loop whose spec does not declare modifies=['<opaque>']")
                 self.assumptions_used.add("opaque callables: " + cfg["note"])
                 self.havoc_all_but(cfg["preserves"])
+                continue
+            if loc == "<everything>":
+                # the callee may write ANY field of ANY object (used for tls.Context.handle_message, which runs the
+                # connection's own callbacks): total heap havoc, nothing preserved; locals of the caller are values and stay
+                for spec in getattr(self, "loop_stack", []):
+                    if "<everything>" not in spec.get("modifies", []):
+                        raise Unsupported("call with modifies '<everything>' inside a loop whose spec does not declare modifies=['<everything>']")
+                self.havoc_all_but([])
                 continue
             self.havoc_location(loc, env.old if False else env)
 
